@@ -68,11 +68,11 @@ package replace
 //@ func RewriteSchemaToRef(sp, key, ref)
 //@   aspect safe
 //@   requires len(key) >= 1 && sp != nil
-//@   modifies heaps DOC
+//@   modifies heaps DOC, heap any
 //@ func rewriteParentRef(sp, key, ref)
 //@   aspect safe
 //@   requires len(key) >= 1 && sp != nil && keyOK(box(sp), key)
-//@   modifies heaps DOC
+//@   modifies heaps DOC, heap any
 //@ func DeepestRef(sp, opts, ref)
 //@   aspect safe
 //@   requires sp != nil
